@@ -130,6 +130,18 @@ class SubclassOfKnownControl(sl.ShowDeletedControl):
 
 
 @dataclasses.dataclass(frozen=True)
+class SubEqualityFilter(sl.FilterEquality):
+    """An application filter derived from a built-in one (inherits pack and the fields), under its own number."""
+    filter_id: int = dataclasses.field(init=False, repr=False, default=1026)
+
+    @classmethod
+    def unpack(cls, reader, options):
+        inner = reader.read_sequence(A.ASN1Tag(A.TagClass.CONTEXT_SPECIFIC, cls.filter_id, True))
+        attr = inner.read_octet_string().decode(options.string_encoding)
+        return SubEqualityFilter(attr, inner.read_octet_string())
+
+
+@dataclasses.dataclass(frozen=True)
 class AltFilter(sl.LDAPFilter):
     """Another application's filter type that happens to use the same number as CustomFilter (in another session)."""
     filter_id: int = dataclasses.field(init=False, repr=False, default=1024)
@@ -203,7 +215,7 @@ def gates(c, tier):
               "direct:unregistered-generic-control", "direct:unregistered-filter-protocolerror", "direct:unregistered-auth-protocolerror",
               "direct:duplicate-refused", "direct:builtin-clash-refused", "custom-bytes-in-sequence", "registration-in-sequence",
               "caller-buffer-shared-between-sessions", "direct:multi-control-messages", "direct:same-number-different-form", "direct:nested-custom-filter", "direct:deepcopy-independence", "fresh-process-reference-runs",
-              "direct:late-registration-decodes-custom", "direct:free-id-registrations", "direct:fresh-session-after-foreign-failure", "direct:one-memoryview-two-sessions", "direct:subclass-of-known-control", "direct:same-id-different-class", "direct:errors-are-per-session",
+              "direct:late-registration-decodes-custom", "direct:free-id-registrations", "direct:fresh-session-after-foreign-failure", "direct:one-memoryview-two-sessions", "direct:subclass-of-known-control", "direct:same-id-different-class", "direct:errors-are-per-session", "direct:registration-order", "direct:custom-filter-derived-from-builtin",
               "direct:fresh-session-after-many-unknown-codes", "direct:fresh-session-after-dropped-sessions"):
         if c.get(k, 0) == 0:
             out.append(f"never observed {k}")
@@ -808,6 +820,43 @@ def direct_checks():
         vio.append(("registration-leaked:control:subclass-of-known-type", f"first registration of a subclass of a known control on a fresh session refused: {e}"))
     except sl.LDAPError as e:
         vio.append(("registered-control-not-decoded:subclass-of-known-type", f"{type(e).__name__}: {e}"))
+    # several custom filter types on one session, registered in descending, ascending and mixed order of their numbers
+    for ids in ((50, 20, 35), (20, 35, 50), (35, 50, 20), (1030, 12, 31)):
+        try:
+            sx = sl.LDAPServer()
+            classes = {i_: _mk_filter(i_) for i_ in ids}
+            for i_ in ids:
+                sx.register_filter(classes[i_])
+            for n_, i_ in enumerate(sorted(ids)):
+                root = rfc4511.Enc().message(("SearchRequest", 60 + n_, ("dc=x", 2, 0, 0, 0, False, ("present", "cn"), ()), ()))
+                root.children[1].children[6] = ber.Node(ber.CTX, False, i_, content=b"order")
+                got_ = sx.receive(ber.ser(root))[0]
+                if type(got_.filter) is not classes[i_]:
+                    vio.append(("registered-filter-not-decoded:registration-order", f"filters registered in the order {ids}: number {i_} decoded as {type(got_.filter).__name__}"))
+                    break
+                sx.search_result_done(60 + n_)
+                sx.data_to_send()
+            else:
+                obs["direct:registration-order"] = obs.get("direct:registration-order", 0) + 1
+        except (sl.LDAPError, ValueError) as e:
+            vio.append(("registered-filter-not-decoded:registration-order", f"filters registered in the order {ids}: {type(e).__name__}: {e}"))
+    # an application filter derived from a built-in one goes on the wire under its own number
+    try:
+        cl_ = sl.LDAPClient()
+        cl_.register_filter(SubEqualityFilter)
+        sid_ = cl_.search_request("dc=x", filter=sl.FilterAnd([SubEqualityFilter("cn", b"v"), sl.FilterEquality("sn", b"w")]))
+        wire_ = cl_.data_to_send()
+        andn = ber.parse(wire_).children[1].children[6]
+        tags_ = [(c_.cls, c_.num) for c_ in andn.children]
+        sv_ = sl.LDAPServer()
+        sv_.register_filter(SubEqualityFilter)
+        got_ = sv_.receive(wire_)[0]
+        if tags_ != [(ber.CTX, 1026), (ber.CTX, 3)] or type(got_.filter.filters[0]) is not SubEqualityFilter or type(got_.filter.filters[1]) is not sl.FilterEquality:
+            vio.append(("custom-filter-derived-from-builtin", f"wire tags {tags_}; the registered server decoded {got_.filter!r}"))
+        else:
+            obs["direct:custom-filter-derived-from-builtin"] = 1
+    except (sl.LDAPError, ValueError) as e:
+        vio.append(("custom-filter-derived-from-builtin", f"{type(e).__name__}: {e}"))
     # two sessions, two different application types under the same number / OID: each decodes with its own class,
     # whichever decoded first
     for kind, cls_a, cls_b, mk in (("filter", CustomFilter, AltFilter, bytes_custom_filter), ("auth", CustomAuth, AltAuth, bytes_custom_auth),
